@@ -76,8 +76,10 @@ impl Matcher {
             for &t in tokens {
                 let bt = inner.parser.consume_token(t)?;
                 ensure!(bt == 0, "unexpected backtracking");
+                // check after every token (as try_consume_tokens() does): a token following
+                // an EOS or the end of the grammar has to be an error
+                let _ = inner.parser.check_stop()?;
             }
-            let _ = inner.parser.check_stop()?;
             Ok(())
         })
     }
